@@ -833,7 +833,11 @@ func (w *World) predicateAnswerOnlyVia(h *ssa.Function, idx int, pol bool, legit
 // rules that look for a construct "in fi" find it wherever it was moved to.
 func (w *World) inspectRegion(fi *FuncInfo, visit func(ast.Node) bool) {
 	for _, f := range w.astRegion(fi) {
-		ast.Inspect(f.Decl, visit)
+		// the visitors resolve names with fi's package information: only syntax of that
+		// package can be handed to them
+		if f.Pkg == fi.Pkg {
+			ast.Inspect(f.Decl, visit)
+		}
 	}
 }
 
